@@ -53,7 +53,7 @@ pub fn run<E: Entry>(ctx: &mut Ctx) {
         return;
     };
     // the region that read items are taken from holds other, wider and longer items as well
-    if h % 2 == 1 {
+    if (h / 6) % 2 == 1 {
         let other: Vec<E::V> = <E::V as Val>::gen_run(&mut ctx.rng, Dom::new(Kind::Long), 3);
         a.prefill_aux(&other);
         a.prefill_aux(&pool);
